@@ -213,8 +213,59 @@ def analyse(src, s, e, kind, op, trivia, compound, extra_lines=(), extra_seps=()
     return protected, touched, lo, hi
 
 
+def _partners(src):
+    """comment text -> string of the last non-separator code token before it on its own line (None: the comment owns its line)"""
+    out = {}
+    last = {}
+    shape = {}          # line -> [number of separators before the last code token, bracket balance]: one whole element on the line?
+    prev_code = None
+    for t in toks(src):
+        if t.type in NONSIG:
+            continue
+        ln = t.start[0]
+        if ln not in shape:
+            shape[ln] = [1 if prev_code == ':' else 0, 0, False]     # continues a `key:` of the line above: not a whole element
+        sh = shape[ln]
+        if t.type != tokenize.COMMENT:
+            prev_code = t.string
+        if t.type == tokenize.COMMENT:
+            # only the unambiguous case: the line holds exactly one element (at most a trailing separator, no bracket left open or
+            # closed from another line) - then its line comment belongs to that element
+            out[t.string] = (last.get(ln), sh[0] == 0 and sh[1] == 0 and not sh[2]) if ln in last else (None, True)
+            continue
+        if sh[2] is False and t.string in (',', ';'):
+            sh[2] = 'sep'
+        elif sh[2] == 'sep':
+            sh[0] += 1          # code after a separator: a second element on the line
+        if t.string in '([{':
+            sh[1] += 1
+        elif t.string in ')]}':
+            sh[1] -= 1
+        if t.string not in (',', ';', ')', ']', '}') and t.end[0] == t.start[0]:
+            last[ln] = t.string
+        elif t.end[0] != t.start[0]:
+            last[t.end[0]] = t.string[-12:]        # a multi-line token ends on this line
+    return out
+
+
+def comment_line_partner_changed(src, new_src, new_comments=(), force=(), skip=()):
+    """for a PURE insertion: every original comment still follows the same code on its line (or still owns its line)"""
+    try:
+        a, b = _partners(src), _partners(new_src)
+    except Exception:
+        return None
+    cl = {t.string: t.start[0] - 1 for t in toks(src) if t.type == tokenize.COMMENT} if (force or skip) else {}
+    for c, (p, single) in a.items():
+        ln = cl.get(c)
+        if ln in skip:
+            continue
+        if c in b and c not in new_comments and (single or ln in force) and b[c][0] != p:
+            return (c, p, b[c][0])
+    return None
+
+
 def judge(src, new_src, s, e, kind, op, trivia, compound, new_comments=(), extra_lines=(), extra_seps=(), first_undelim_gap=None,
-          allow_pos=(), reindent=False, new_literals=()):
+          allow_pos=(), reindent=False, new_literals=(), partner_force=(), partner_skip=()):
     """-> list of violations [{'cls', 'what', 'detail'}]"""
     out = []
     try:
@@ -266,6 +317,11 @@ def judge(src, new_src, s, e, kind, op, trivia, compound, new_comments=(), extra
         if lit not in astr:
             out.append({'cls': 'new-literal-changed', 'what': f'multi-line literal {lit[:40]!r} of the put code was rewritten', 'detail': lit})
             break
+    if op == 'insert' and not out:
+        mv = comment_line_partner_changed(src, new_src, new_comments, partner_force, partner_skip)
+        if mv:
+            out.append({'cls': 'comment-moved-off-its-line', 'what': f'after a pure insertion the comment {mv[0]!r} no longer follows {mv[1]!r} on its '
+                        f'line (now {mv[2]!r})', 'detail': list(mv)})
     if reindent:        # the edit legitimately re-indents a neighbouring block (elif <-> else: if): tokens only
         return out
     # (2) lines
@@ -403,6 +459,10 @@ def targets(src):
 
 
 def _node_span(lines, c):
+    if isinstance(c, tuple):            # a key: value pair of a Dict / MatchMapping
+        s, _ = _span(lines, c[0])
+        _, e = _span(lines, c[1])
+        return s, e
     if isinstance(c, ast.withitem):
         a = c.context_expr
         b = c.optional_vars or c.context_expr
@@ -446,7 +506,10 @@ def run_edit(src, edit, root=None):
     parent = tree
     for name, i in edit['path']:
         parent = getattr(parent, name) if i is None else getattr(parent, name)[i]
-    lst = getattr(parent, edit['field'])
+    if edit['field'] == '_pairs':
+        lst = list(zip(parent.keys, parent.values if isinstance(parent, ast.Dict) else parent.patterns))
+    else:
+        lst = getattr(parent, edit['field'])
     idx = edit['idx']
     kind = edit['kind']
     op = edit['op']
@@ -471,7 +534,7 @@ def run_edit(src, edit, root=None):
         nxt = idx + 1 if op != 'insert' else idx
         if nxt < len(lst):
             extra_lines.update(range(e[0], _node_span(lines, lst[nxt])[1][0] + 1))
-        if hasattr(parent, 'end_lineno') and kind == 'expr' and edit['pkind'] in ('List', 'Tuple', 'Set', 'Call', 'MatchSequence'):
+        if hasattr(parent, 'end_lineno') and kind == 'expr' and edit['pkind'] in ('List', 'Tuple', 'Set', 'Call', 'MatchSequence', 'Dict', 'MatchMapping'):
             extra_lines.update(range(e[0], parent.end_lineno))
     if idx < len(lst) and getattr(lst[idx], 'decorator_list', None):
         # start at the `@` token of the first decorator (the expression may be parenthesized / on a later line)
@@ -499,7 +562,13 @@ def run_edit(src, edit, root=None):
     if tr is not None:
         opts['trivia'] = tuple(tr) if isinstance(tr, list) else tr
     try:
-        if op == 'delete' and edit.get('how') == 'cut':
+        if edit.get('via') == 'slice':       # addressed as a slice of the container (works for Dict / MatchMapping pairs too)
+            fa = edit.get('fieldarg')
+            if op == 'delete':
+                f.put_slice(None, idx, idx + 1, fa, **opts)
+            else:
+                f.put_slice(edit['code'], idx, idx, fa, one=edit.get('one', True), **opts)
+        elif op == 'delete' and edit.get('how') == 'cut':
             item['cut'] = getattr(f.a, edit['field'])[idx].f.cut(**opts).src
         elif op == 'delete':
             getattr(f.a, edit['field'])[idx].f.remove(**opts)
@@ -548,8 +617,27 @@ def run_edit(src, edit, root=None):
     allow_pos = ()
     if edit.get('reindent'):
         allow_pos = {_node_span(lines, lst[0])[0]}          # the `elif` keyword becomes `else:` + `if`
+    pforce, pskip = set(), set()
+    if op == 'insert' and kind == 'expr' and idx > 0:
+        # the line comment after the previous element belongs to it exactly when that element starts its own line (ast extent)
+        ps, pe = _node_span(lines, lst[idx - 1])
+        (pforce if lines[ps[0]][:ps[1]].strip() == '' else pskip).add(pe[0])
     v = judge(src, new_src, s, e, kind, op, tv, compound, new_comments, extra_lines, extra_seps, gap, allow_pos,
-              bool(edit.get('reindent')), new_literals)
+              bool(edit.get('reindent')), new_literals, pforce, pskip)
+    if v and op == 'insert' and kind == 'expr' and idx == len(lst) and idx > 0 and isinstance(parent, ast.Tuple) and \
+            lines[parent.lineno - 1].encode()[parent.col_offset:parent.col_offset + 1] != b'(':
+        # an undelimited tuple ends at its last element: a comment after it is outside the container and an appended element goes
+        # in front of it (not judged)
+        pend = _node_span(lines, lst[idx - 1])[1][0]
+        cpos = {t.string: t.start[0] - 1 for t in toks(src) if t.type == tokenize.COMMENT}
+        v = [x for x in v if not (x['cls'] == 'comment-moved-off-its-line' and cpos.get(x['detail'][0]) == pend)]
+    if v and op == 'insert' and kind == 'expr' and idx == len(lst) and idx > 0:
+        # appending after the last element: the (empty) target slice's trailing trivia is the previous element's line comment
+        cpos = {t.string: t.start[0] - 1 for t in toks(src) if t.type == tokenize.COMMENT}
+        pend = _node_span(lines, lst[idx - 1])[1][0]
+        for x in v:
+            if x['cls'] == 'comment-lost' and cpos.get(x['detail']) == pend:
+                x['cls'] = 'comment-lost@append-after-line-comment'
     if v is None:
         item['outcome'] = 'untokenizable'
         return item
@@ -1267,6 +1355,9 @@ def run_empty_block(src, edit):
         lost = [c for c in cb if c not in it_]
         if lost:
             v.append({'cls': 'comment-lost', 'what': f'pure insertion into the empty {edit["field"]} lost / reordered comment {lost[0]!r}', 'detail': lost})
+    if not v and (mv := comment_line_partner_changed(src, new)):
+        v.append({'cls': 'comment-moved-off-its-line', 'what': f'after a pure insertion the comment {mv[0]!r} no longer follows {mv[1]!r} on its line '
+                  f'(now {mv[2]!r})', 'detail': list(mv)})
     bl = [l for l in src.split('\n') if l.strip()]
     al = [l for l in new.split('\n') if l.strip()]
     it_ = iter(al)
@@ -1296,6 +1387,77 @@ def empty_block_cases(arg):
         import hashlib
         it['key'] = hashlib.blake2b((src + fld).encode(), digest_size=8).hexdigest()
         if not it['violations']:
+            it.pop('after', None)
+        out.append(it)
+    return out
+
+
+# ---------------------------------------------------------------------------------------------------------------------
+# deterministic product over comma-separated containers (incl. key: value containers and the undelimited subscript tuple):
+# container x element shape x layout of comments x delete / insert at every position x trivia values
+
+XP_CONTAINERS = [   # (kind, prefix, suffix, path from module to the container, field for my spans, field arg for pfst, insert code, one)
+    ('List', 'x = [', ']', [('body', 0), ('value', None)], 'elts', None, 'zz', True),
+    ('Tuple', 'x = (', ')', [('body', 0), ('value', None)], 'elts', None, 'zz', True),
+    ('Set', 'x = {', '}', [('body', 0), ('value', None)], 'elts', None, 'zz', True),
+    ('Call', 'f(', ')', [('body', 0), ('value', None)], 'args', 'args', 'zz', True),
+    ('Tuple', 'y[', ']', [('body', 0), ('value', None), ('slice', None)], 'elts', None, 'zz', True),
+    ('Dict', 'x = {', '}', [('body', 0), ('value', None)], '_pairs', None, '{zz: 9}', False),
+    ('MatchSequence', 'match v:\n    case [', ']: pass', [('body', 0), ('cases', 0), ('pattern', None)], 'patterns', None, 'zz', True),
+    ('MatchMapping', 'match v:\n    case {', '}: pass', [('body', 0), ('cases', 0), ('pattern', None)], '_pairs', None, '{9: zz}', False),
+]
+XP_SEQ_ELEMS = [['aa', 'bb', 'cc'], ['aa', '(bb +\n        b2)', 'cc'], ['a1', 'b1[\n        0]', 'c1[\n        0]']]
+XP_PAIR_ELEMS = [['1: aa', '2: bb', '3: cc'], ['1:\n        aa', '2:\n        bb', '3:\n        cc'],
+                 ['1: aa', '2: (bb +\n        b2)', '3: (cc +\n        c2)']]
+XP_MATCH_SEQ = [['aa', 'bb', 'cc'], ['aa', '[bb,\n        b2]', 'cc']]
+XP_MATCH_PAIR = [['1: aa', '2: bb', '3: cc'], ['1:\n        aa', '2:\n        bb', '3:\n        cc'], ['1: aa', '2: [bb,\n        b2]', '3: [cc,\n        c2]']]
+XP_TRIVIA = [True, False, [False, False], ['block', 'none'], ['none', 'line'], ['all', 'all'], 'all']
+
+
+def _xp_layouts(e, ind):
+    a, b, c = e
+    return [
+        f'\n{ind}{a},  # c1\n{ind}{b},  # c2\n{ind}{c},  # c3\n',
+        f'\n{ind}# o1\n{ind}{a},\n{ind}# o2\n{ind}{b},\n{ind}# o3\n{ind}{c}\n',
+        f'{a}, {b}, {c}',
+        f'{a},  # c1\n{ind}{b}, {c}  # c3\n',
+        f'\n{ind}{a},  # c1\n\n{ind}# o2\n{ind}{b}  # c2\n{ind},  # s2\n{ind}{c}  # c3\n',
+    ]
+
+
+def expr_product():
+    out = []
+    for (kind, pre, suf, path, fld, fa, code, one) in XP_CONTAINERS:
+        elems = XP_PAIR_ELEMS if kind == 'Dict' else XP_MATCH_PAIR if kind == 'MatchMapping' else XP_MATCH_SEQ if kind == 'MatchSequence' else XP_SEQ_ELEMS
+        ind = '    ' if not kind.startswith('Match') else '        '
+        for e in elems:
+            for lay in _xp_layouts(e, ind):
+                src = pre + lay + suf + '\n'
+                try:
+                    ast.parse(src)
+                except SyntaxError:
+                    continue
+                for op, idxs in (('delete', (0, 1, 2)), ('insert', (0, 1, 2, 3))):
+                    for i in idxs:
+                        for tr in XP_TRIVIA:
+                            out.append((src, {'op': op, 'kind': 'expr', 'path': path, 'pkind': kind, 'field': fld, 'idx': i,
+                                              'code': code if op == 'insert' else None, 'trivia': tr, 'options': {}, 'via': 'slice',
+                                              'fieldarg': fa, 'one': one}))
+    return out
+
+
+def expr_product_cases(chunk):
+    out = []
+    import hashlib
+    for src0, edit in chunk:
+        src = renumber_comments(src0) or src0
+        try:
+            it = run_edit(src, edit)
+        except Exception as ex:
+            it = {'src': src, 'edit': edit, 'op': edit['op'], 'field': edit['pkind'] + '.' + edit['field'], 'violations': [], 'changed': False,
+                  'outcome': 'harness:' + type(ex).__name__ + ':' + str(ex)[:80], 'bad_spans': []}
+        it['key'] = hashlib.blake2b((src + repr(edit)).encode(), digest_size=8).hexdigest()
+        if not it['violations'] and not it.get('bad_spans'):
             it.pop('after', None)
         out.append(it)
     return out
